@@ -172,3 +172,19 @@ func DiffParts(a, b sx.V) []string {
 	}
 	return rv
 }
+
+// NormalizeMerged applies the canonicalisation used for merged segments: a doc-value field none of
+// whose surviving documents has a term may or may not be listed as visitable (C06 fixes the visits,
+// not that list), so only fields with at least one entry are kept.
+func (c *Content) NormalizeMerged() {
+	var dv []FieldDV
+	var names []string
+	for _, d := range c.DV {
+		if len(d.Docs) > 0 {
+			dv = append(dv, d)
+			names = append(names, d.Field)
+		}
+	}
+	c.DV = dv
+	c.DVFields = names
+}
